@@ -10,6 +10,16 @@ claimed = {
    text="Exhaustive enumeration of all inputs up to the stated lengths over alphabets with one representative per byte/token class the lexer and parsers branch on, each executed on the instrumented real code (lex to end, both parsers, every limit, two-source split); invariant: returns, nil-error⇒document, error location inside input, progress, step budget. Size families give linear step bounds on a doubling grid to 64 KiB unlimited / 8 MiB limited. Worker death (stack exhaustion) is caught by subprocess isolation and a memory-mapped breadcrumb.",
    note="Trusted: the instrumenter (adds counters only, no semantic change), Go toolchain. Inputs longer than the bounds are covered only through the size families.",
    ref="DESIGN.md §4 C01"),
+ "C03": dict(
+   technique=T + "every string ≤6/7 symbols over 19 lexically significant symbols, ≤5/6 over 18 escape-level symbols, every block-string body ≤8/10 over 7 symbols, ignored-token strings at every gap of token pairs; token stream compared with a reference lexer written from the Oct-2021 grammar (model bound to the code by replaying lexer_test.yml)",
+   text="Exhaustive enumeration of short source strings; for each, the real lexer's complete token stream (kinds, character extents, decoded values, failure index) is compared with ref/reflex, a cursor-free longest-match lexer transcribed from the specification including BlockStringValue. Known defects are excused only when the model with exactly that defect emulated reproduces the output.",
+   note="Trusted: ref/reflex (validated against the 88 graphql-js-derived cases of lexer_test.yml on every run). Non-BMP characters count as one character; invalid UTF-8 and surrogate escapes are undecided.",
+   ref="DESIGN.md §4 C03"),
+ "C04": dict(
+   technique=T + "every short source string (token positions), every token sequence ≤3/4 tokens × 8 separators (error locations), profile documents with every placement of ≤2 non-default separators and every single-token deletion, type systems cut into 1–3 named sources at every boundary with injected faults, invalid documents for every validation rule; every position/location checked against offsets, token starts, lines and columns recomputed from the text",
+   text="Every token, every *ast.Position reachable by reflection from parsed documents, loaded schemas and validated documents, and every location of every syntax, schema and validation error is checked: offset inside the source, start of a token (per ref/reflex), line = 1 + LF/CR/CRLF terminators before it, column = characters since line start + 1, and the named file is the source the text came from. Separators (LF, CR, CRLF, BOM, tabs, commas, multi-byte comments, multi-line descriptions) are placed exhaustively at ≤2 gaps.",
+   note="Trusted: ref/reflex and the character/line table. Node positions are judged as the property states (some token start, consistent line/column, right source), not against an expected token per node type.",
+   ref="DESIGN.md §4 C04"),
 }
 checks = []
 for i in ids:
